@@ -14,3 +14,23 @@ CLAIMED = {
          TRUST, "DESIGN.md §3 C01"),
 }
 NOT_YET = {}
+CLAIMED["C02"] = ("edge-cut must-pass-through + syntactic linear-form comparison of balance guards + provenance wiring",
+  "Decides on every path the per-operation inequalities behind 'no inflation': swap signs only behind OUT <= IN - FEES with the "
+  "overflow-checked output sum of the very outputs signed; mint only behind OUT <= stored quote amount; melt pays/settles only behind "
+  "IN >= amount + fee reserve + input fees; the fee formula; the signer's key/amount/id wiring; the fee-limit argument of every pay call "
+  "and its forwarding in each backend; the stored amount/fee reserve of a melt quote. Right level: these guards and wirings are visible in "
+  "the code shape for all inputs; the ledger identity over histories follows from them only by a pencil argument and is not claimed.",
+  TRUST, "DESIGN.md §3 C02")
+CLAIMED["C03"] = ("edge-cut must-pass-through with closure/cell resolution + writer census + compare-and-swap/lock pair table",
+  "Decides on every path that the mint op signs only behind stored state PAID and a successful PENDING write, that PAID is written by the "
+  "quote-state op only behind UNPAID + successful invoice lookup + Settled, the NUT-20 disjunctive guard over exactly the signed outputs, "
+  "that success after signing passes ISSUED and the signature save, that the save is the last fallible and an atomic step, a census of all "
+  "writers of the state against allowed transitions, and whether the state check-then-act pairs are protected. Interleavings are not "
+  "explored; unprotected pairs are reported (known findings D8/D14).",
+  TRUST, "DESIGN.md §3 C03")
+CLAIMED["C04"] = ("whole-range-loop (forall) edge-cut with interprocedural nil-return summaries + provenance wiring",
+  "Decides for every element of the input list, on every path to signing/paying/settling, that the iteration passed the 512-byte cap, "
+  "the keyset hit in the map of all keysets, the key hit for the claimed amount, hex/point parsing of C and crypto.Verify==true on exactly "
+  "(that secret, that keyset's key for that amount, that C). Right level: rejection of forged/mutated proofs for all inputs rests exactly on "
+  "these per-element guards; the algebra inside crypto.Verify and completeness are not claimed.",
+  TRUST, "DESIGN.md §3 C04")
